@@ -322,7 +322,7 @@ def run_case(case):
                             break
                     # composite schemes (SABA with forward and backward drifts) take the exception from an intermediate state. Its signature:
                     # x += v*tau leaves x cross v untouched, so angular momentum is conserved to rounding while the energy is not.
-                    if mech != 'kepler:hyperbolic-straight-line-exception' and be['dh'] <= K1 * scale_k and 'dE' in bad:
+                    if mech != 'kepler:hyperbolic-straight-line-exception' and be['dh'] <= K1 * scale_k and 'dh' not in bad:
                         mech = 'kepler:hyperbolic-straight-line-exception'
             if who == 'whfast512' and (abs(o['dtP']) > 0.05 or o['e'] >= 0.9):
                 # WHFast512's vectorised solver has no Stumpff argument reduction and a fixed iteration count
